@@ -199,6 +199,21 @@ def _build_meta(meta):
                         steps.append(pt.Pop(pt.Bytes("base16", "%04x" % i)))
             return pt.Seq(*steps, pt.Int(1))
         return b
+    if d == "late":
+        # `singles` constants used ONCE each, then `doubles` constants used twice each that are first seen after all
+        # of them (their place in the constant block must not depend on how many constants were seen before)
+        singles, doubles, kind = meta["singles"], meta["doubles"], meta["kind"]
+
+        def b():
+            def const(i):
+                return pt.Int(1000 + i) if kind == "big" else pt.Bytes("base16", "%06x" % i)
+
+            def eq(i):
+                return const(i) == const(i)
+            steps = [pt.Pop(const(i)) for i in range(singles)]
+            steps += [pt.Assert(eq(singles + j)) for j in range(doubles)]
+            return pt.Seq(*steps, pt.Int(1))
+        return b
     if d == "rank":
         # constants in a given frequency order: the i-th name is used FREQS[i] times, so its rank in the
         # frequency-sorted block is exactly i (ties keep first-use order)
@@ -224,7 +239,7 @@ def _worker(items, base):
     for meta in items:
         d = meta["driver"]
         inputs = basic[:1] if d == "seq" else (basic if d == "ctrl" else basic[:1])
-        check_pair(_build_meta(meta), _VERSIONS if d not in ("many", "rank") else (6,), out, meta, inputs, size=meta.get("size", 1))
+        check_pair(_build_meta(meta), _VERSIONS if d not in ("many", "rank", "late") else (6,), out, meta, inputs, size=meta.get("size", 1))
         out["counters"]["states"] = out["counters"].get("states", 0) + 1
         out["counters"]["transitions"] = out["counters"].get("transitions", 0) + meta.get("size", 1)
     if items and base % 4999 == 0:
@@ -254,6 +269,11 @@ def run(tier):
     for kk in ks:
         for kind in ("big", "small", "bytes"):
             items.append({"driver": "many", "k": kk, "kind": kind, "size": kk})
+    for singles in ((0, 1, 5, 300, 999, 1000, 1001, 1100, 2001) if tier == "quick" else
+                    (list(range(0, 20)) + list(range(990, 1012)) + [300, 500, 1100, 1500, 1999, 2000, 2001, 2500, 3001])):
+        for doubles in (1, 2, 5):
+            for kind in ("big", "bytes"):
+                items.append({"driver": "late", "singles": singles, "doubles": doubles, "kind": kind, "size": singles + doubles})
     # frequency-rank driver: every ordering of 7 int constants (small / >=128 / template / named) and of 7 byte
     # constants over the frequency profile (4,4,3,3,2,2,2), plus profiles with ties and singletons
     int_pool = ["s0", "s1", "s2", "s3", "s5", "L1000", "T"]
